@@ -42,7 +42,10 @@ def gen_cases(tier: str, seed: int):
     for kind in ("ops", "order", "eq", "nearmiss", "write"):
         for j in range(n * (4 if kind == "order" else 1)):
             i += 1
-            yield {"kind": kind, "seed": [seed, i], "leaf": kinds[j % len(kinds)], "size": 1 + (j * 5) % 6,
+            lf = kinds[j % len(kinds)]
+            if kind in ("order", "ops") and j % 6 == 5:  # low-rank updates carry the most cached state: sampled more often
+                lf = ("lowrank_sq_plus", "lowrank_sq_minus", "lowrank_sym_plus", "lowrank_pd_plus", "lowrank_sym_minus", "lowrank_pd_minus")[(j // 6) % 6]
+            yield {"kind": kind, "seed": [seed, i], "leaf": lf, "size": (1 + (j * 5) % 6) if lf == kinds[j % len(kinds)] else 4 + (j // 6) % 3,
                    "depth": 1 + j % 4}
 
 
@@ -146,9 +149,32 @@ def case_ops(case, obs) -> None:
         v = rng.standard_normal(new.d.shape[0])
         for a in available_attrs(new.m):
             get_attr(new.m, a, v)
-        w = rng.standard_normal(new.d.shape[1])
-        _ = new.m @ w
-        _ = rng.standard_normal(new.d.shape[0]) @ new.m
+        # arrays the caller passes to products (with the matrix, its inverse and its square root) must come back untouched
+        probes = [("matvec", new.m, rng.standard_normal(new.d.shape[1]), "r"), ("vecmat", new.m, rng.standard_normal(new.d.shape[0]), "l"),
+                  ("matmat", new.m, rng.standard_normal((new.d.shape[1], 2)), "r")]
+        if new.square and hasattr(type(new.m), "inv"):
+            probes.append(("inv-matvec", new.m.inv, rng.standard_normal(new.d.shape[0]), "r"))
+            probes.append(("inv-vecmat", new.m.inv, rng.standard_normal(new.d.shape[0]), "l"))
+        if hasattr(type(new.m), "sqrt") and "sqrt" in available_attrs(new.m):
+            probes.append(("sqrt-matvec", new.m.sqrt, rng.standard_normal(new.m.sqrt.shape[1]), "r"))
+        for pname, mat, arr, side in probes:
+            for writable in (True, False):
+                x = arr.copy()
+                x.flags.writeable = writable
+                keep = x.copy()
+                obs.count("product_operand_checks")
+                try:
+                    _ = (mat @ x) if side == "r" else (x @ mat)
+                except ValueError as e:
+                    if "read-only" in str(e):
+                        obs.violation(f"product-writes-into-operand:{pname}:{type(mat).__name__}",
+                                      f"{pname} with a read-only array raised {e!r}: the product writes into the caller's array; expr={new.desc}")
+                        break
+                    raise
+                if not np.array_equal(x, keep):
+                    obs.violation(f"product-operand-mutated:{pname}:{type(mat).__name__}",
+                                  f"{pname} changed the array passed by the caller; expr={new.desc}")
+                    break
         after = snapshot(node)
         obs.count("operand_hash_checks", len(before))
         for k, h in before.items():
